@@ -307,7 +307,12 @@ def run(rng, res, tier, shard, nshards):
         if rng.random() < 0.15:
             lcfg.same_sig_dups = 0.6       # same name AND same end types, different fields (F26)
             lcfg.dup_assoc_names = 0.5
+        if rng.random() < 0.1:
+            lcfg.same_field_both_ends = 0.4     # X [f] <-- A --> [f] Y: language graph only (no model can be built: C06 known finding)
         case = gen_case(rng, lcfg, MCfg(), corelang_share=0.03)
+        if any(a['leftField'] == a['rightField'] for a in case['spec']['associations']):
+            case['amodel'] = None
+            res.count('class:same-field-name-at-both-ends')
         bad = []
         if case['source'] == 'generated':
             for _ in range(2):
